@@ -5,12 +5,12 @@ P = {
     "claimed": True,
     "coq_targets": ["Properties/C03.vo", "Run/Eval_C03.vo"],
     "theorems_module": "Properties.C03",
-    "theorems": ["C03_method_list_semantics", "C03_method_list_rejected", "C03_hosts_any", "C03_decode_per_setting",
+    "theorems": ["C03_method_list_semantics", "C03_method_list_rejected", "C03_method_list_rejected_spec", "C03_hosts_any", "C03_decode_per_setting",
                  "C03_route_matches_iff", "C03_captures_exact", "C03_unnamed_not_exposed",
-                 "C03_matcher_sees_route_keys", "C03_lookup_answers_as_documented", "C03_lookup_answers_as_documented_now", "C03_lookup_no_panic", "C03_lookup_selected", "C03_selected_only_if_documented", "C03_history_independent",
+                 "C03_matcher_sees_route_keys", "C03_lookup_answers_as_documented", "C03_lookup_answers_as_documented_now", "C03_lookup_no_panic", "C03_lookup_selected", "C03_selected_only_if_documented", "C03_request_sequence_independent",
                  "C03_F1_pinned_refuted", "C03_F3_pinned_refuted", "C03_F4_pinned_refuted",
                  "C03_F2_pinned_refuted", "C03_F5_pinned_refuted", "C03_F5_pinned_panic_refuted", "C03_F6_pinned_refuted",
-                 "C03_F7_pinned_refuted", "C03_F8_pinned_refuted", "C03_nonvacuous",
+                 "C03_F7_pinned_refuted", "C03_F8_pinned_refuted", "C03_nonvacuous", "C03_lookup_nonvacuous",
                  # every tree the repository can reach (Tree.Add / Tree.Delete), after any history of rule-set operations
                  "C03_reach_content", "C03_reach_matcher_sees_route_keys", "C03_reach_lookup_answers_as_documented",
                  "C03_reach_lookup_answers_as_documented_now", "C03_reach_lookup_no_panic", "C03_reach_lookup_selected",
